@@ -733,7 +733,8 @@ class Distributions(object):
             self.odd = odd
         self.N = 1 + (order if self.odd else order // 2)  # angular terms
         self.use_sin = use_sin
-        self.weights = weights
+        # (in floating point: integer weights would be rounded by interpolation)
+        self.weights = None if weights is None else np.asarray(weights, float)
         if weights is None:
             self.shape = None
         else:
